@@ -23,7 +23,8 @@ sys.path.insert(0, HERE)
 from pyvc.props import PROPS  # noqa: E402
 from pyvc.run import verify_module  # noqa: E402
 
-VENV_PY = "/venv/bin/python"
+# the interpreter that has the repository's dependencies; overridable for environments where /venv is unusable
+VENV_PY = os.environ.get("VERIF_NATIVE_PY", "/venv/bin/python")
 
 
 def sanitize(s):
@@ -303,6 +304,7 @@ def main():
         "explanation": meta["explanation"],
         "generator": "pyvc: VCs generated from /repo's current ast on this run; contracts in /verif/contracts (parsed, not imported)",
         "repo": repo,
+        "native_python": VENV_PY,
     }
     level = meta["category"]
     if level == "proof" and (discharged != len(proof_obls) or not proof_obls):
